@@ -21,6 +21,7 @@
 From Coq Require Import ZArith QArith List Bool Relations.
 From TM Require Import Sched.Vec Sched.Types Sched.Queue Sched.Tree Sched.Cycle Sched.Events Sched.MapsP Sched.Steps Sched.FrameP
                        Sched.InvAcct Sched.InvIdent Sched.TurnP Sched.CycleP Sched.Reach.
+From TM Require Import Base.ShapeCanon.
 Import ListNotations.
 Open Scope Z_scope.
 
@@ -101,3 +102,10 @@ Proof.
   split; [exists 3%nat, 2000, 1, (firstn 4 ex_ops); split; [apply wf_ops_allb_sound; vm_compute; reflexivity|reflexivity]|].
   vm_compute. split; reflexivity.
 Qed.
+
+(** the functions of treadmill/scheduler/__init__.py these theorems were proved about still have the statement
+    skeleton the model was written from (re-extracted from the Python AST on every run, harness/tables_shape.py;
+    kept last so that a difference does not stop the theorems above from being checked) *)
+Theorem C03_source_shape : shapes_ok_C03 = true.
+Proof. vm_compute. reflexivity. Qed.
+Print Assumptions C03_source_shape.
